@@ -20,6 +20,7 @@ SHAPES = {
     'after-removals': [(NEW_ROOT, 0, 0), (NEW_TRACK, 0, 0), (NEW_TRACK, 0, 0), (NEW_TRACK, 0, 0), (RM_TRACK, 0, 0), (ADD, 0, 2), (ADD, 0, 1)],
     'nested': [(NEW_ROOT, 0, 0), (NEW_SUB, 0, 0), (NEW_SUB, 1, 0), (NEW_TRACK, 0, 0), (NEW_TRACK, 0, 0), (ADD, 2, 0), (ADD, 0, 0), (ADD, 2, 1)],
     'crate-removed': [(NEW_ROOT, 0, 0), (NEW_SUB, 0, 0), (NEW_ROOT, 0, 0), (NEW_TRACK, 0, 0), (ADD, 1, 0), (RM_CRATE, 1, 0)],
+    'parent-removed': [(NEW_ROOT, 0, 0), (NEW_SUB, 0, 0), (NEW_TRACK, 0, 0), (ADD, 1, 0), (RM_CRATE, 0, 0)],
     'small': [(NEW_ROOT, 0, 0), (NEW_TRACK, 0, 0), (NEW_TRACK, 0, 0), (ADD, 0, 1)],
 }
 def pre(shape): return dict(prefix=enc(SHAPES[shape]), prefix2=enc(SHAPES[shape], 1), npre=len(SHAPES[shape]), shape=shape)
